@@ -23,9 +23,11 @@ fn reset_registry() { LIVE.with(|l| l.borrow_mut().clear()); NEXT.with(|n| n.set
 fn fresh_id() -> u64 { let id = NEXT.with(|n| { let v = n.get(); n.set(v + 1); v }); LIVE.with(|l| l.borrow_mut().insert(id)); id }
 
 #[derive(Debug)]
-pub struct Tok { pub v: u64, pub id: u64 }
-impl Tok { pub fn new(v: u64) -> Tok { Tok { v, id: fresh_id() } } }
-impl Clone for Tok { fn clone(&self) -> Tok { Tok { v: self.v, id: fresh_id() } } }
+pub struct Tok { pub v: u64, pub id: u64,
+                 /// a heap allocation per instance: a double drop / use after free is then undefined behaviour that Miri reports
+                 _heap: Box<u64> }
+impl Tok { pub fn new(v: u64) -> Tok { Tok { v, id: fresh_id(), _heap: Box::new(v) } } }
+impl Clone for Tok { fn clone(&self) -> Tok { Tok { v: self.v, id: fresh_id(), _heap: Box::new(*self._heap) } } }
 impl Default for Tok { fn default() -> Tok { Tok::new(0) } }
 impl Drop for Tok { fn drop(&mut self) { let had = LIVE.with(|l| l.borrow_mut().remove(&self.id)); if !had { DOUBLE.with(|d| d.set(d.get() + 1)); } } }
 impl PartialEq for Tok { fn eq(&self, o: &Tok) -> bool { self.v % 8 == o.v % 8 } }
@@ -263,16 +265,19 @@ fn vec_case(sink: &mut Sink, id: &str, r: &mut Rng, steps: usize) {
 pub fn run(args: &Args, sink: &mut Sink) {
     let thorough = args.tier == "thorough";
     let mut rng = Rng(args.seed ^ 0x0A17);
-    let rounds = if thorough { 12000 } else { 1500 };
+    // tier `miri`: the same generators under the Miri interpreter (undefined behaviour in the library's `unsafe` blocks,
+    // double frees, use after free), far fewer and shorter histories
+    let miri = args.tier == "miri";
+    let rounds = if miri { 40 } else if thorough { 12000 } else { 1500 };
     for k in 0..rounds {
         let mut r = rng.fork();
-        let steps = 5 + r.below(40);
+        let steps = if miri { 5 + r.below(15) } else { 5 + r.below(40) };
         obs_case(sink, &format!("O{k}"), k % 2 == 0, (k / 2) % 2 == 0, &mut r, steps);
     }
-    let rounds = if thorough { 6000 } else { 800 };
+    let rounds = if miri { 60 } else if thorough { 6000 } else { 800 };
     for k in 0..rounds {
         let mut r = rng.fork();
-        let steps = 5 + r.below(50);
+        let steps = if miri { 5 + r.below(25) } else { 5 + r.below(50) };
         vec_case(sink, &format!("V{k}"), &mut r, steps);
     }
 }
